@@ -283,5 +283,5 @@ def run_case(case: Dict[str, Any]) -> CaseInfo:
 
 
 def parts() -> List[Part]:
-    return [Part("lifespan", run_case, strategy=case_strategy, quick=400, thorough=20000,
+    return [Part("lifespan", run_case, strategy=case_strategy, quick=1200, thorough=30000,
                  rule="lifespan scripts x client attempts x in-flight requests at shutdown")]
